@@ -303,3 +303,120 @@ func describeStates(st []int) any {
 	}
 	return m
 }
+
+// ---------------------------------------------------------------- value tables
+
+// One environment value of a numeric or duration setting with what ParseConfig must make of it
+// (bad: an error, "rather than replaced silently").
+type envValue struct {
+	text string
+	want any
+	bad  bool
+}
+
+const maxU64 = ^uint64(0)
+
+var valueTable = map[string][]envValue{
+	"PORT": {{text: "0", want: 0}, {text: "1", want: 1}, {text: "8080", want: 8080}, {text: "65535", want: 65535},
+		{text: "abc", bad: true}, {text: "12x", bad: true}, {text: "1.5", bad: true}, {text: "0x10", bad: true}, {text: "99999999999999999999", bad: true}},
+	"DIR_COUNT": {{text: "0", want: uint64(0)}, {text: "1", want: uint64(1)}, {text: "100", want: uint64(100)},
+		{text: "9223372036854775807", want: uint64(1<<63 - 1)}, {text: "9223372036854775808", want: uint64(1 << 63)}, {text: "18446744073709551615", want: maxU64},
+		{text: "ten", bad: true}, {text: "-1", bad: true}, {text: "-50", bad: true}, {text: "1.5", bad: true}, {text: "1e3", bad: true}, {text: "18446744073709551616", bad: true}},
+	"GC_PERIOD": {{text: "1h30m", want: 90 * time.Minute}, {text: "90s", want: 90 * time.Second}, {text: "1.5s", want: 1500 * time.Millisecond}, {text: "0", want: time.Duration(0)}, {text: "100ms", want: 100 * time.Millisecond},
+		{text: "5 parsecs", bad: true}, {text: "10", bad: true}, {text: "soon", bad: true}, {text: "1d", bad: true}, {text: "s", bad: true}},
+	"NUM_WORKERS": {{text: "1", want: 1}, {text: "64", want: 64}, {text: "0", want: 0},
+		{text: "1.5", bad: true}, {text: "many", bad: true}, {text: "2w", bad: true}, {text: "99999999999999999999", bad: true}},
+	"SEND_DURATION": {{text: "6us", want: 6 * time.Microsecond}, {text: "1ms", want: time.Millisecond}, {text: "2s", want: 2 * time.Second}, {text: "1m", want: time.Minute},
+		{text: "1", bad: true}, {text: "fast", bad: true}, {text: "ms", bad: true}, {text: "5 ms", bad: true}},
+}
+
+// runValue: one setting's environment carries v, the other settings are all at the base state.
+func runValue(si int, v envValue, base int) *enum.Outcome {
+	o := &enum.Outcome{Steps: 1}
+	if cfgDir == "" {
+		d, err := os.MkdirTemp("", "verif-cfg-")
+		if err != nil {
+			o.Infra = err.Error()
+			return o
+		}
+		cfgDir = d
+	}
+	states := make([]int, len(settings))
+	for i := range states {
+		states[i] = base
+	}
+	if base == stBoth || base == stFile {
+		states[si] = stFile // the file also names the setting: the environment must still win / still be reported
+	} else {
+		states[si] = stAbsent
+	}
+	file := ""
+	if y := yamlFor(states); y != "" {
+		file = filepath.Join(cfgDir, "c.yaml")
+		if err := os.WriteFile(file, []byte(y), 0o644); err != nil {
+			o.Infra = err.Error()
+			return o
+		}
+	}
+	for i, s := range settings {
+		os.Unsetenv(s.env)
+		if i != si && states[i] == stBoth {
+			os.Setenv(s.env, s.envVal)
+		}
+	}
+	os.Setenv(settings[si].env, v.text)
+	defer func() {
+		for _, s := range settings {
+			os.Unsetenv(s.env)
+		}
+	}()
+	c, err := config.ParseConfig(file)
+	o.Checks++
+	desc := fmt.Sprintf("%s=%q in the environment, other settings %s", settings[si].env, v.text, stateNames[base])
+	if v.bad {
+		if err == nil {
+			o.Mismatch = cfm("malformed-value-accepted: ParseConfig returned no error for %s and made it %v", desc, settings[si].get(&c))
+		}
+		return o
+	}
+	if err != nil {
+		o.Mismatch = cfm("well-formed-value-rejected: %v for %s", err, desc)
+		return o
+	}
+	if got := settings[si].get(&c); !reflect.DeepEqual(got, v.want) {
+		o.Mismatch = cfm("value %s = %v, want %v for %s", settings[si].env, got, v.want, desc)
+	}
+	return o
+}
+
+func init() {
+	// config-values: every entry of the value tables (boundary and malformed representations of the
+	// five numeric / duration settings) in the environment, the other settings absent / in the file /
+	// in both.
+	enum.Register("config-values", func(string) *enum.Family {
+		type vc struct {
+			si   int
+			v    envValue
+			base int
+		}
+		var cases []vc
+		for si, s := range settings {
+			for _, v := range valueTable[s.env] {
+				for _, base := range []int{stAbsent, stFile, stBoth} {
+					cases = append(cases, vc{si, v, base})
+				}
+			}
+		}
+		return &enum.Family{
+			Count: func() int64 { return int64(len(cases)) },
+			Describe: func(i int64) any {
+				return map[string]any{"setting": settings[cases[i].si].env, "value": cases[i].v.text, "others": stateNames[cases[i].base]}
+			},
+			Run: func(i int64) *enum.Outcome {
+				o := runValue(cases[i].si, cases[i].v, cases[i].base)
+				o.States = []uint64{uint64(i)}
+				return o
+			},
+		}
+	})
+}
